@@ -380,8 +380,15 @@ def c15(sink, cfg, mk, num, val):
         # which keeps the non-linear queries in pure real arithmetic
         lo_ms = (_dt.datetime(1900, 1, 1) - _dt.datetime(1970, 1, 1)).total_seconds() * 1000
         hi_ms = (_dt.datetime(2201, 1, 1) - _dt.datetime(1970, 1, 1)).total_seconds() * 1000
-        mk = lambda name: SymDT(sink.e.real(name + "_ms", lo_ms, hi_ms) * 1000)
+        def mk(name):
+            v = sink.e.real(name + "_ms", lo_ms, hi_ms)
+            # counter-examples are preferred on the millisecond grid (that is what the concrete replay can represent)
+            sink.e.model_hints = list(sink.e.model_hints) + [v == v.__floor__()]
+            return SymDT(v * 1000)
+
     d0, d1 = mk("d0"), mk("d1")
+    if sink.mode == "sym":
+        sink.e.model_hints = list(sink.e.model_hints) + [Or(d1.us - d0.us >= 10**6, d0.us - d1.us >= 10**6)]
     r0, r1 = val("r0", -R15, R15), val("r1", -R15, R15)
     if sink.mode == "sym":
         sink.e.assume(d0.us != d1.us)
